@@ -316,6 +316,9 @@ def predicate(crit):
 
 def crit_text(crit):
     def num(v):
+        # a float whose shortest spelling uses an exponent is written the way the library itself writes it when a formula builds the criterion (">"&x)
+        if isinstance(v, float) and 'e' in repr(v):
+            return repr(v)
         s = lit(v)
         return s
     if crit[0] == 'op':
@@ -325,7 +328,7 @@ def crit_text(crit):
     return crit[1]
 
 
-cell_num = st.one_of(st.integers(-20, 20), st.integers(-80, 80).map(lambda k: k / 4.0), st.integers(-1000, 1000))
+cell_num = st.one_of(st.integers(-20, 20), st.integers(-80, 80).map(lambda k: k / 4.0), st.integers(-1000, 1000), st.integers(-20, 20), st.sampled_from([1e-05, 2.5e-07, -1e-05, 1e+16, 1.5e+20, 3e-05, 1e-06, -2e+17]))
 WORD = st.text(st.sampled_from('abcx.-[ '), min_size=1, max_size=4)
 
 
